@@ -337,7 +337,20 @@ def r5_conveyance(ctx):
         anc = list(L.ancestors(f))
         lazy = next((a for a in anc if L.head(a) == "lazy-seq"), None)
         if lazy is None:
-            sites.append((f, True, ""))
+            # a local helper function is where its *callers* are: (let [spawn (fn ...)] ... (lazy-seq ... (spawn ...)))
+            helper = next((a for a in anc if L.head(a) in ("fn", "fn*") and isinstance(a.parent, L.Vec) and L.head(a.parent.parent) in ("let", "let*", "letfn")), None)
+            called_lazily = False
+            if helper is not None:
+                vec = helper.parent
+                k = next(i for i, x in enumerate(vec.items) if x is helper)
+                nm = vec.items[k - 1].val if k % 2 == 1 and isinstance(vec.items[k - 1], L.Sym) else None
+                if nm is not None:
+                    called_lazily = any(isinstance(u, L.Sym) and u.val == nm and u is not vec.items[k - 1] and any(L.head(a) == "lazy-seq" for a in L.ancestors(u)) for u in L.walk(vec.parent))
+            if not called_lazily:
+                sites.append((f, True, ""))
+                continue
+            what = "a future is created" if is_future else "*pmap-cpu-count* is read"
+            sites.append((f, False, f"{what} in a local function that is called from inside the lazy-seq and is not wrapped in bound-fn*: it runs in whichever thread first realizes the seq, with that thread's bindings, not where pmap was called"))
             continue
         # conveyed: an enclosing fn that is the argument of bound-fn*, the bound-fn* call itself outside any lazy-seq
         conveyed = False
